@@ -86,36 +86,65 @@ Fixpoint bisect_go {A} (lt : A -> bool) (l : list A) (fuel : nat) (lo hi : nat) 
 Definition bisect_left {A} (lt : A -> bool) (l : list A) : nat :=
   bisect_go lt l (S (length l)) 0 (length l).
 
-(* ---------- Record.get_cds_features_within_location ---------- *)
-(* while i > 0 and p(i - 1): i -= 1 *)
-Fixpoint dec_while (p : nat -> bool) (i : nat) : nat :=
-  match i with O => O | S j => if p j then dec_while p j else i end.
-Definition nth_loc (gs : list gene) (i : nat) : loc :=
-  match nth_error gs i with Some g => snd g | None => [] end.
-Definition find_start (gs : list gene) (q : loc) (incl : bool) : nat :=
-  let i := bisect_left (fun g : gene => klt (snd g) q) gs in
-  let i := dec_while (fun j => lstart (nth_loc gs j) =? lstart q) i in
-  if incl then dec_while (fun j => overlap (nth_loc gs j) q) i else i.
-Fixpoint scan (q : loc) (wo : bool) (l : list gene) : list gene :=
-  match l with
-  | [] => []
-  | f :: rest =>
-    if contains q (snd f) then f :: scan q wo rest
-    else if wo && overlap (snd f) q then f :: scan q wo rest
-    else match rest with
-         | nx :: _ => if contains (snd f) (snd nx) then scan q wo rest else []
-         | [] => []
-         end
+(* ---------- Record.get_cds_features_within_location (as repaired by /repo b818da8e, findings F13a / F13b) ---------- *)
+(* while index > first and test(features[index - 1]): index -= 1 *)
+Fixpoint backstep (first : nat) (test : gene -> bool) (l : list gene) (i : nat) : nat :=
+  match i with
+  | O => O
+  | S j => if Nat.leb i first then i else
+           match nth_error l j with
+           | Some g => if test g then backstep first test l j else i
+           | None => i
+           end
   end.
+(* first = 0; while first < len(features) and features[first].crosses_origin(): first += 1 *)
+Fixpoint lead_cross (l : list gene) : nat :=
+  match l with
+  | f :: r => if bridges (snd f) then S (lead_cross r) else O
+  | [] => O
+  end.
+(* find_start_in_list(location, features, first): bisect_left(features, dummy, lo=first), then back over the genes
+   with the query's start *)
+Definition find_start (gs : list gene) (q : loc) (first : nat) : nat :=
+  let i0 := bisect_go (fun g : gene => klt (snd g) q) gs (S (length gs)) first (length gs) in
+  backstep first (fun g => lstart (snd g) =? lstart q) gs i0.
+Fixpoint take_while {A} (p : A -> bool) (l : list A) : list A :=
+  match l with
+  | x :: r => if p x then x :: take_while p r else []
+  | [] => []
+  end.
+(* feature.is_contained_by(location) or with_overlapping and feature.overlaps_with(location) *)
+Definition hit (q : loc) (wo : bool) (g : gene) : bool :=
+  contains q (snd g) || (wo && overlap (snd g) q).
+(* candidates = features[:first]
+   if with_overlapping: candidates.extend(f for f in features[first:index] if f.location.end > location.start)
+   while index < len(features) and features[index].location.start < location.end: candidates.append(features[index]) *)
+Definition candidates (gs : list gene) (q : loc) (wo : bool) : list gene :=
+  let first := lead_cross gs in
+  let index := find_start gs q first in
+  firstn first gs
+  ++ (if wo then filter (fun f : gene => lstart q <? lend (snd f)) (firstn (index - first) (skipn first gs)) else [])
+  ++ take_while (fun f : gene => lstart (snd f) <? lend q) (skipn index gs).
 Definition within_simple (gs : list gene) (p : part) (wo : bool) : list gene :=
   let p := if ps p <? 0 then mkPart 0 (Z.max 1 (pe p)) S_None else p in
-  scan [p] wo (skipn (find_start gs [p] wo) gs).
+  filter (hit [p] wo) (candidates gs [p] wo).
 Definition gmem (g : gene) (l : list gene) : bool := existsb (fun h : gene => fst h =? fst g) l.
+(* features.extend(f for f in found if f not in features) *)
+Fixpoint extend_new (acc found : list gene) : list gene :=
+  match found with
+  | [] => acc
+  | f :: r => if gmem f acc then extend_new acc r else extend_new (acc ++ [f]) r
+  end.
+(* one part of a compound query:
+   features = [f for f in features if not (f.crosses_origin() and f in found)]; features.extend(new ones of found) *)
+Definition compound_step (gs : list gene) (acc : list gene) (p : part) : list gene :=
+  let found := within_simple gs p true in
+  extend_new (filter (fun f : gene => negb (bridges (snd f) && gmem f found)) acc) found.
 Definition within (gs : list gene) (q : loc) (wo : bool) : list gene :=
   match q with
   | [p] => within_simple gs p wo
   | _ =>
-    let feats := fold_left (fun acc p => acc ++ filter (fun f => negb (gmem f acc)) (within_simple gs p true)) q [] in
+    let feats := fold_left (compound_step gs) q [] in
     if wo then feats else filter (fun f : gene => contains q (snd f)) feats
   end.
 
